@@ -179,6 +179,7 @@ class Run:
         self.outside = []
         self.explanation = ''
         self.decided_keys = ('unsat', 'sat', 'confirmed', 'refuted', 'valid')
+        self.exhaustive = True   # False when part of the run is sampling (seeds, draw streams, command tables)
 
     def add(self, part, section=None):
         if section is not None:
@@ -269,7 +270,7 @@ class Run:
                         'non-trivial = the encoded object has at least one variable and one row / the '
                         'harness reached its final assertion',
                 'samples': tot.samples[:12] or ['(none)'],
-                'exhaustive': True,
+                'exhaustive': bool(self.exhaustive),
                 'queries_by_verdict': counts,
                 'queries_decided': int(decided),
                 'solver_s': round(tot.solver_s, 2),
